@@ -95,6 +95,8 @@ def run(chk, tier):
         eprogs.append(g.program("k%d" % i))
     # ... and programs with collect forms over generators (the generator advances in step with filter and element expression)
     eprogs += progen.generator_collect_family((chk.seed + 17) % 1000003, 20 if tier == "quick" else 300)
+    # ... and programs in which a constant's value redefines a macro locally (macro definitions are lexically scoped)
+    eprogs += progen.local_macro_family((chk.seed + 23) % 1000003, 12 if tier == "quick" else 150)
     fame = progcheck.Family(chk, eprogs, "exceptions", workers=vlib.NCPU, timeout=1500)
     for s_, c in fame.status_count.items():
         per["exn:" + s_] = c
